@@ -17,6 +17,10 @@ def fam_forgery_paths(rng, i):
         "rebind_at_ms": ",".join(str(t) for t in ([t1] if i % 2 == 0 else [t1, t1 + rng.choice([300, 700])])),
         "rebind_ip": rng.choice([0, 1]),
     }
+    # keep the connection busy until well after the last rebind (one small stream per tick)
+    last = int(p["rebind_at_ms"].split(",")[-1])
+    p["hold_ms"] = last + 1500
+    p["tick_ms"] = 40
     if i % 3 == 2:
         p["spoof_garbage"] = 0      # genuine (old, duplicate) packets from the spoofed addresses instead
     return e2e_props._nz(p)
